@@ -283,6 +283,39 @@ def control_file_sites(db, rep, prog):
 
 
 
+def constmap_hash_sites(db, rep, prog):
+    """constmap's hash() on one-byte keys, evaluated by the engine for every letter and some other bytes (positional parameters)"""
+    hf = db.fn('constmap.c', 'hash')
+
+    class HH(QHooks):
+        def __init__(self):
+            self.res = {}
+
+        def tracked_global(self, path):
+            return True
+
+        def precise_arith(self, path):
+            return True
+
+        def on_return(self, E, fn, val):
+            if fn.name == 'hash':
+                self.res[g1(E, '$b')] = val
+    hh = HH()
+    for b in list(range(65, 91)) + list(range(97, 123)) + [48, 64, 91, 96, 123, 45, 46, 200 - 256]:
+        e = Engine(db, prog, hh)
+        fid = e.frame_id(hf)
+        e.run(hf, {'%s::%s' % (fid, hf.params[0]): fs(('&', 'BUF[0]')), '%s::%s' % (fid, hf.params[1]): fs(1), 'BUF[0]': fs(b), '$b': fs(b)})
+        rep.count_states(e.states, e.transitions)
+
+    def hv(b):
+        v = hh.res.get(b)
+        return next(iter(v)) if v is not None and v is not TOP and len(v) == 1 else None
+    badf = [chr(u) for u in range(65, 91) if hv(u) is None or hv(u) != hv(u + 32)]
+    distinct = len({hv(b) for b in (48, 64, 91, 96, 123, 45, 46, 97, 98)}) == 9
+    return {'hash-folds-A-Z-onto-a-z': (not badf, 'constmap.c:hash', 'hash("A".."Z") must equal hash("a".."z"); it differs for %s: a list entry and an address that differ in the case of that letter never meet' % badf, []),
+            'hash-distinguishes-other-bytes': (distinct, 'constmap.c:hash', 'hash of single non-letter bytes collide', [])}
+
+
 def run(ctx):
     db, rep = ctx.db, ctx.report
     prog = db.program('qmail-send')
@@ -341,35 +374,8 @@ def run(ctx):
     ci = db.fn('constmap.c', 'constmap_init')
     r3.check(bool(cm.calls('hash')) and bool(ci.calls('hash')), 'init-and-lookup-share-hash', 'constmap.c', 'constmap() and constmap_init() must both call hash()')
     r3.check(bool(cm.calls('case_diffb')), 'lookup-compares-with-case_diffb', 'constmap.c:constmap', 'the key comparison must ignore case')
-    # fold table: evaluate the ch computation for all bytes via the engine on hash() with len = 1
-    class HH(QHooks):
-        precise = frozenset(['L:h', 'P:len', 'P:s', 'L:ch'])
-        tracked = frozenset(['BUF'])
-
-        def __init__(self):
-            self.res = {}
-
-        def precise_arith(self, path):
-            return True
-
-        def on_return(self, E, fn, val):
-            self.res[g1(E, '$b')] = val
-    folds = {}
-    ok_fold = True
-    hh = HH()
-    for b in list(range(65, 91)) + list(range(97, 123)) + [48, 64, 91, 96, 123, 45, 46, 200 - 256]:
-        e = Engine(db, prog, hh)
-        fid = e.frame_id(hf)
-        e.run(hf, {'%s::P:len' % fid: fs(1), '%s::P:s' % fid: fs(('&', 'BUF[0]')), 'BUF[0]': fs(b), '$b': fs(b)})
-    def hv(b):
-        v = hh.res.get(b)
-        return next(iter(v)) if v is not None and v is not TOP and len(v) == 1 else None
-    for u in range(65, 91):
-        if hv(u) is None or hv(u) != hv(u + 32):
-            ok_fold = False
-    distinct = len({hv(b) for b in (48, 64, 91, 96, 123, 45, 46, 97, 98)}) == 9
-    r3.check(ok_fold, 'hash-folds-A-Z-onto-a-z', 'constmap.c:hash', 'hash("A".."Z") must equal hash("a".."z")')
-    r3.check(distinct, 'hash-distinguishes-other-bytes', 'constmap.c:hash', 'hash of single non-letter bytes collide')
+    for inst_, v_ in sorted(constmap_hash_sites(db, rep, prog).items()):
+        r3.check(v_[0], inst_, v_[1], v_[2], v_[3])
     r3.expect_min(4)
 
     r6 = rep.rule('C10.6-control-files', 'R-TABLE', 'control_readfile(): the list handed to constmap holds exactly the non-empty, non-comment lines with trailing blanks removed (so an empty domain is never "listed")')
